@@ -60,7 +60,7 @@ func gen(g *mon.Gen) {
 				g.Emit(&Case{Client: client, FC: fc, Size: size, Kind: "prefix-faults", Seed: rng.Int63(), Dense: g.Thorough() || client != clientx.Serial})
 			}
 			g.Emit(&Case{Client: client, FC: fc, Kind: "misc", Seed: rng.Int63()})
-			for k := 0; k < g.Pick(1, 5); k++ {
+			for k := 0; k < g.Pick(1, 12); k++ {
 				g.Emit(&Case{Client: client, FC: fc, Kind: "sequence", Seed: rng.Int63()})
 			}
 		}
